@@ -59,7 +59,7 @@ type execEnv struct {
 	granted map[int]map[string]*sop.LockKey
 	// C15: item lock records each thread wrote (thread -> cache key -> lock id in the record)
 	itemLocks map[int]map[string]string
-	leaked  []string
+	leaked    []string
 	// C37 monitor: registry block images and install events
 	blocks   map[string][]byte
 	installs map[string]map[string]int // "<lid>@<version>" -> active physical id -> installing thread
@@ -415,7 +415,7 @@ func worker(run *ev.Run, prop string, sc *scenario, shard, shards int, thorough 
 	completed := -1
 	budget := 6 * time.Minute
 	if thorough {
-		budget = 100 * time.Minute
+		budget = 30 * time.Minute
 	}
 	deadline := time.Now().Add(budget)
 	var total, allPasses int64
@@ -1296,12 +1296,12 @@ func installMonitor(x *sched.Execution, env *execEnv) {
 	env.abs = newAbsRec()
 	sopenv.L2.OnLocked = func(keys []*sop.LockKey) {
 		if ns := env.abs.nodeKeys(keys); len(ns) > 0 {
-			env.abs.events = append(env.abs.events, absEvent{Op: "Lock", T: x.CurrentID(), Ns: ns})
+			env.abs.onLocked(x.CurrentID(), ns)
 		}
 	}
 	sopenv.L2.OnUnlock = func(keys []*sop.LockKey) {
 		if ns := env.abs.nodeKeys(keys); len(ns) > 0 {
-			env.abs.events = append(env.abs.events, absEvent{Op: "Unlock", T: x.CurrentID(), Ns: ns})
+			env.abs.onUnlocked(x.CurrentID(), ns)
 		}
 	}
 	parse := func(blk []byte) map[fsck.UUID]fsck.Handle {
